@@ -57,6 +57,10 @@ type Spec struct {
 	// WorkerEnv gives extra environment variables for the worker process of a shard
 	// (switches the code under test reads at package initialisation).
 	WorkerEnv func(shard int) []string
+	// RecycleAfter: a worker process ends after this many cases and the judge starts a new
+	// one at the next case (0 = never).  For checks whose cases leave memory behind that
+	// the process cannot give back (types built with reflect.StructOf are never freed).
+	RecycleAfter func(tier string) uint64
 }
 
 // Violation is one refuting observation.
@@ -77,6 +81,7 @@ type result struct {
 	Cases      uint64            `json:"cases"`
 	Done       bool              `json:"done"`
 	ResumeFrom uint64            `json:"resume_from"`
+	Recycled   bool              `json:"recycled"` // ResumeFrom is a planned hand-over, not a hang
 	Notes      []string          `json:"notes"`
 }
 
@@ -90,6 +95,9 @@ type W struct {
 	From    uint64 // resume point (global case counter)
 	Replay  *ReplayFile
 	Verbose bool
+
+	ranHere, recycleAfter uint64
+	resPath               string
 
 	mu       sync.Mutex
 	res      result
@@ -222,6 +230,16 @@ func (w *W) Cases(fam string, n uint64, fn func(c *Case)) {
 		w.begin(g, fam)
 		w.runCase(c, fn)
 		w.end()
+		w.ranHere++
+		if w.recycleAfter > 0 && w.ranHere >= w.recycleAfter && w.Replay == nil && w.resPath != "" {
+			// planned hand-over to a fresh process (see Spec.RecycleAfter)
+			w.mu.Lock()
+			w.res.ResumeFrom = g + 1
+			w.res.Recycled = true
+			w.mu.Unlock()
+			w.writeResult(w.resPath)
+			os.Exit(0)
+		}
 	}
 }
 
@@ -376,6 +394,9 @@ func workerMain(spec *Spec, tier string, seed int64) {
 	w.From = uint64(envInt("VERIF_FROM", 0))
 	w.outDir = dir
 	resPath := filepath.Join(dir, fmt.Sprintf("w%d.json", shard))
+	if spec.RecycleAfter != nil {
+		w.recycleAfter, w.resPath = spec.RecycleAfter(tier), resPath
+	}
 	// mmap'd current-case marker
 	if f, err := os.OpenFile(filepath.Join(dir, fmt.Sprintf("w%d.cur", shard)), os.O_RDWR|os.O_CREATE, 0o644); err == nil {
 		f.Truncate(4096)
@@ -543,6 +564,9 @@ func parentMain(spec *Spec, tier string, seed int64) int {
 				}
 				if haveRes && r.ResumeFrom > 0 { // hang: already recorded by the worker
 					from = r.ResumeFrom
+					if r.Recycled {
+						attempt-- // a planned hand-over is not a failed attempt
+					}
 					continue
 				}
 				// crash: attribute to the case named by the marker
